@@ -747,6 +747,8 @@ func gen(t *rapid.T) Case {
 	}
 	o := ymodel.DefaultOpts()
 	o.Budget = 18
+	o.Extras = true // must, when, status, reference, presence and extension statements on nodes, uses and augments
+	schema.AugmentExtras = true
 	set, _ := schema.Generate(t, o)
 	var feats []string
 	if l := schema.AddAugments(t, set, 0, 3); len(l) > 0 {
